@@ -14,11 +14,12 @@ from .engine_expr import ExprMixin
 from .engine_call import CallMixin
 from .engine_lib import LibMixin
 from .engine_stmt import StmtMixin
+from .engine_re import ReMixin
 
 LIST_METHODS = ("append", "appendleft", "pop", "popleft", "insert", "reverse", "extend")
 
 
-class Engine(CoreMixin, ExprMixin, CallMixin, LibMixin, StmtMixin):
+class Engine(CoreMixin, ExprMixin, CallMixin, LibMixin, StmtMixin, ReMixin):
     def __init__(self, contract):
         self.contract = contract
         self.init_core()
@@ -33,6 +34,8 @@ class Engine(CoreMixin, ExprMixin, CallMixin, LibMixin, StmtMixin):
             if name not in self.bases:
                 self.bases[name] = tuple(b.id if isinstance(b, ast.Name) else getattr(b, "attr", "object") for b in node.bases)
         self.trivial = 0
+        self.re_cache = {}
+        self.scan_module_patterns()
         self.qcount = 0
         self.result_sv = None
         self.entry_state = None
@@ -128,6 +131,8 @@ class Engine(CoreMixin, ExprMixin, CallMixin, LibMixin, StmtMixin):
                 self.note("parameter %s untyped: opaque" % n)
             ts = [self.ctx.const("%s_%d" % (n, k) if len(flatten(ty)) > 1 else n, s) for k, s in enumerate(flatten(ty))]
             v = SV(ty, ts)
+            if ty.kind == "regex":
+                v.py = ("regex", n, None)
             for t in self.wf(v):
                 st.assume(t)
             st.env[n] = v
@@ -190,7 +195,10 @@ class Engine(CoreMixin, ExprMixin, CallMixin, LibMixin, StmtMixin):
     def check_return(self, o):
         con = self.contract
         val = o.val if o.val is not None else NONE
-        if con.returns:
+        if con.returns == "bool" and val.ty.kind != "bool":
+            self.note("return value modelled by its truthiness (callers only test it)")
+            val = mk_bool(self.truthy(val))
+        elif con.returns:
             val = self.coerce(val, parse_type(con.returns), o.st, " (return value)")
         for name, expr in con.ensures.items():
             g, sk = self.goal_term(expr, self.post_env(o.st), o.st, old=self.entry_state, result=val)
